@@ -6,14 +6,6 @@ pub open spec fn tag_of_byte(b: u8) -> Result<Tag, Error> {
     match b { 1u8 => Ok(Tag::Start), 2u8 => Ok(Tag::Item), 3u8 => Ok(Tag::End), 4u8 => Ok(Tag::Clear),
               _ => Err(Error::InvalidTag(("JournalMarkerTag", b))) }
 }
-impl vstd::std_specs::convert::FromSpecImpl<Tag> for u8 {
-    open spec fn obeys_from_spec() -> bool { true }
-    open spec fn from_spec(v: Tag) -> u8 { tag_byte(v) }
-}
-impl vstd::std_specs::convert::TryFromSpecImpl<u8> for Tag {
-    open spec fn obeys_try_from_spec() -> bool { true }
-    open spec fn try_from_spec(value: u8) -> Result<Tag, Error> { tag_of_byte(value) }
-}
 pub open spec fn trailer() -> Seq<u8> { seq![70u8, 74u8, 76u8, 3u8] }   // "FJL\x03"
 pub open spec fn enc_start(n: u32, s: u64) -> Seq<u8> { seq![1u8] + le32(n) + le64(s) }
 pub open spec fn enc_end(c: u64) -> Seq<u8> { seq![3u8] + le64(c) + trailer() }
